@@ -46,7 +46,7 @@ Render(m, lay) ==
       rhs == (IF m.objRhs = <<>> THEN <<>> ELSE << <<m.objName, m.objRhs[1]>> >>) \o RowsWith(m, LAMBDA r : r.rhs)
       rng == RowsWith(m, LAMBDA r : r.range)
   IN << "NAME " \o m.name >> \o cmt
-     \o (IF m.sense = "absent" THEN <<>> ELSE IF m.senseOwnLine THEN << "OBJSENSE", "    " \o m.sense >> ELSE << "OBJSENSE " \o m.sense >>)
+     \o (IF m.sense = "absent" THEN <<>> ELSE IF m.senseOwnLine THEN << "OBJSENSE", Line(<<m.sense>>) >> ELSE << "OBJSENSE " \o m.sense >>)
      \o << "ROWS", Line(<<"N", m.objName>>) >> \o [ i \in DOMAIN m.rows |-> Line(<<m.rows[i].type, m.rows[i].name>>) ] \o blank
      \o << "COLUMNS" >> \o ColLines(m, m.cols, FALSE, 0, lay.two) \o cmt
      \o << "RHS" >> \o Pack("RHS", rhs, lay.two)
